@@ -520,6 +520,7 @@ var c20Defs = []struct{ src, name, suffix string }{
 	{"abc=1", "abc", " "}, {"ab=2", "ab", " "}, {"a=3", "a", " "}, {"b=4", "b", " "},
 	{"func abc(){1}", "abc", "("}, {"func ab(){2}", "ab", "("}, {"a=()=>3", "a", "("}, {"abcd=\"x\"", "abcd", " "},
 	// constants and extension names: the second definition of another kind / value is refused
+	{"mm=macro(pq){quote(unquote(pq)+1)}", "", ""}, {"x9=mm(2)", "x9", " "}, {"OTHER-STATE", "", ""},
 	{"LIM=10", "LIM", " "}, {"LIM=func(){1}", "LIM", "("}, {"func ANS(){42}", "ANS", "("}, {"ANS=43", "ANS", " "}, {"PI=func(){1}", "PI", "("}, {"sin=42", "sin", " "},
 }
 
@@ -540,11 +541,21 @@ func c20SessionOne(seq []int) (string, string) {
 	opts := repl.Options{All: true, ShowEval: true, NoColor: true}
 	for _, i := range seq {
 		d := c20Defs[i]
+		if d.src == "OTHER-STATE" {
+			// another interpreter state of the same process (no completion index of its own) defines names: not ours
+			o := eval.NewState()
+			o.Out, o.LogOut = io.Discard, io.Discard
+			_, _, _, _ = repl.EvalOne(context.Background(), o, "zzother = 1; func zzfn() { 2 }", io.Discard, opts)
+			continue
+		}
 		_, _, errs, _ := repl.EvalOne(context.Background(), s, d.src, io.Discard, opts)
 		if len(errs) > 0 {
 			// a refused definition (changing a constant, an extension function's name) defines nothing:
 			// the index must stay as it was
 			continue
+		}
+		if d.name == "" {
+			continue // (a macro definition: whether macros are offered is not specified; its parameters never are)
 		}
 		if !want[d.name] { // first definition of the name: both forms must be recorded
 			must[d.name] = true
